@@ -68,6 +68,9 @@ def fork_run(fn_name, args, timeout):
     if timed_out:
         return {"harness_error": f"job timeout after {timeout}s ({fn_name})"}
     data = b"".join(chunks)
+    if not data and time.monotonic() >= deadline - 1.5:
+        # the child's own watchdog (faulthandler.dump_traceback_later(..., exit=True)) fired just before the deadline
+        return {"harness_error": f"job timeout after {timeout}s ({fn_name})"}
     if not data:
         return {"harness_error": f"job child died, wait status {status} ({fn_name})"}
     try:
